@@ -647,6 +647,11 @@ func shrinkReleaseFaults(cfg harness.Config, seed uint64, c map[string]int) (v *
 				if vv == nil {
 					vv = harness.CheckPartition(&snap, model, -1, false)
 				}
+				if vv == nil && (snap.HdrMaxSize != newMax*ps || uint64(snap.MaxPages) != newMax) {
+					// Open returned success: the new limit is what the active header and the allocator say
+					vv = &harness.Violation{Clause: "resize-limit", Item: -1, Msg: fmt.Sprintf("opened with max size %d (%d pages): the active file header says %d, the allocator uses %d pages",
+						newMax*ps, newMax, snap.HdrMaxSize, snap.MaxPages)}
+				}
 				if vv == nil {
 					suffix := &harness.Program{Cfg: prog.Cfg, Items: []harness.Item{
 						{Tx: &harness.Tx{Ops: []harness.Op{{K: harness.OpFill, A: 0}, {K: harness.OpWriteMany, A: 3, B: 4, C: 11}}, End: harness.EndRollback}},
